@@ -750,8 +750,12 @@ def unit_bounded_merge(U):
             for seq in collision_sequences(U.thorough):
                 if not fmf and any(src != "s1" for (_, _, src) in seq) and strat != "merge":
                     continue
-                for mode in ("create", "update"):
+                for mode in ("create", "update", "update_late"):
                     if mode == "update" and (len(seq) > 3 or not U.thorough and len(seq) > 2):
+                        continue
+                    # update_late: the first collision happens inside create_db, a later arrival comes through update() on the
+                    # returned object - the '<key>_n' numbering must go on where the first import stopped
+                    if mode == "update_late" and (len(seq) != 3 or strat in ("replace", "warning")):
                         continue
                     feats = [mkfeat("par1"), mkfeat("par2")]
                     for j, (s, a, src) in enumerate(seq):
@@ -770,8 +774,9 @@ def unit_bounded_merge(U):
                         if mode == "create":
                             db = gffutils.create_db([copy_feature(f) for f in feats], ":memory:", merge_strategy=strat, force_merge_fields=list(fmf) or None)
                         else:
-                            db = gffutils.create_db([copy_feature(f) for f in feats[:3]], ":memory:", merge_strategy=strat, force_merge_fields=list(fmf) or None)
-                            db.update([copy_feature(f) for f in feats[3:]], merge_strategy=strat, force_merge_fields=list(fmf) or None, make_backup=False)
+                            cut = 3 if mode == "update" else 4
+                            db = gffutils.create_db([copy_feature(f) for f in feats[:cut]], ":memory:", merge_strategy=strat, force_merge_fields=list(fmf) or None)
+                            db.update([copy_feature(f) for f in feats[cut:]], merge_strategy=strat, force_merge_fields=list(fmf) or None, make_backup=False)
                         got = real_snapshot(db)
                     except Exception as e:
                         fails.append({"case": {"strategy": strat, "force_merge_fields": fmf, "mode": mode, "lines": [str(f) for f in feats]}, "expected": "no exception", "observed": repr(e)})
